@@ -4,6 +4,8 @@ The line-protocol driver: one case per line, `<property> <op> <args…>`, binary
 Anything it cannot parse is answered with `bad-op` — never a default.
 -/
 import LfsModel.Pointer
+import LfsModel.FilterModel
+import LfsModel.Sha256
 open Lfs
 
 namespace Oracle
@@ -56,9 +58,39 @@ def c07 : List String → String
     | _, _, _ => "bad-op"
   | _ => "bad-op"
 
+/-- split `data` into the chunks of the harness's chunk reader: sizes c1..ck, then the remainder -/
+def chunkify : List Nat → Bytes → List Bytes
+  | _, [] => []
+  | [], d => [d]
+  | c :: cs, d => d.take c :: chunkify cs (d.drop c)
+
+def parseChunks (s : String) : Option (List Nat) :=
+  if s == "-" then some [] else (s.splitOn ",").mapM String.toNat?
+
+def shaOrDash (b : Bytes) : String := if b.isEmpty then "-" else hex (Sha256.hexDigest b) |> fun _ =>
+  String.ofList ((Sha256.hexDigest b).map fun c => Char.ofNat c.toNat)
+
+def flt : List String → String
+  | [op, ch, eof, d, obj] =>
+    match parseChunks ch, unhex d, unhex obj with
+    | some cs, some data, some o =>
+      let s : LfsA.Stream := ⟨chunkify cs data, eof == "1"⟩
+      if op == "clean" then
+        let r := (Flt.clean Sha256.hexDigest s []).1
+        s!"out={shaOrDash r.out} err=nil"
+      else if op == "smudge" then
+        let st : Flt.Store := if obj == "-" then [] else [(Sha256.hexDigest o, o)]
+        match Flt.smudge s st with
+        | .bytes out np => s!"out={shaOrDash out} err={if np then "notptr" else "nil"}"
+        | .needDownload p => s!"out={shaOrDash (enc p)} err=nil"   -- lfs.skipdownloaderrors: pointer text written instead
+      else "bad-op"
+    | _, _, _ => "bad-op"
+  | _ => "bad-op"
+
 def answer (line : String) : String :=
   match line.splitOn " " with
   | "C07" :: rest => c07 rest
+  | "FLT" :: rest => flt rest
   | _ => "bad-op"
 
 partial def loop (h : IO.FS.Stream) (out : IO.FS.Stream) : IO Unit := do
